@@ -1,8 +1,8 @@
 (* Round trip write -> read for canonical designs (C04) and acceptance of
-   canonical designs (C05).  [canonical] is the invariant the loader is meant to
-   establish; that every loaded netlist satisfies it is NOT proved here (see
-   image_canonical_statement) - the harness evaluates the conclusion on the
-   model for every generated document instead. *)
+   canonical designs (C05).  [canonical] is the invariant the loader
+   establishes: that every loaded netlist satisfies it (image_canonical_statement
+   below) is proved in Yaml/NetlistImage.v, which also derives the full
+   statements rt_read_write_statement / rt_idempotent_statement. *)
 From Coq Require Import Permutation.
 From FrameModel Require Import Num.QcTac Geometry.Rect Stog.CreateStog
   Yaml.Tree Yaml.NetlistRead Yaml.NetlistWrite Yaml.NetlistFacts Yaml.NetlistDerived.
@@ -268,7 +268,8 @@ Definition rt_idempotent_statement : Prop :=
   forall e t n, read_netlist sqrt_o e t = Ok n ->
   exists n', read_netlist sqrt_o e (write_netlist n) = Ok n' /\ write_netlist n' = write_netlist n.
 
-(* what is missing between the two: every loaded netlist is canonical *)
+(* the link between the two: every loaded netlist is canonical
+   (proved: NetlistImage.image_canonical) *)
 Definition image_canonical_statement : Prop :=
   forall e t n, read_netlist sqrt_o e t = Ok n -> canonical e n.
 
